@@ -2,6 +2,8 @@ package main
 
 import (
 	"fmt"
+	"go/token"
+	"go/types"
 	"regexp"
 	"strings"
 
@@ -513,6 +515,378 @@ func ruleClosedNil(rule string) ruleFn {
 		}
 		if n < 4 {
 			c.Undecided(rule, "vacuity-floor", "", fmt.Sprintf("only %d close sites of the installed replica found", n))
+		}
+	}
+}
+
+// ---------------------------------------------------------------------------
+// C14-WGCOUNT: the count a WaitGroup is armed with is the number of goroutines started
+// ---------------------------------------------------------------------------
+
+// loopCollection: the collection the innermost loop around b iterates over: the operand of a
+// range (map / string: Next of a Range), or X of the bound `i < len(X)` of an index loop (the
+// lowering of a slice range).
+func loopCollection(b *ssa.BasicBlock) ssa.Value {
+	for d := b; d != nil; d = d.Idom() {
+		if !inLoop(d) || len(d.Instrs) == 0 {
+			continue
+		}
+		for _, in := range d.Instrs {
+			if nx, ok := in.(*ssa.Next); ok {
+				if rg, ok := nx.Iter.(*ssa.Range); ok {
+					return rg.X
+				}
+			}
+		}
+		if iff, ok := d.Instrs[len(d.Instrs)-1].(*ssa.If); ok {
+			if bo, ok := iff.Cond.(*ssa.BinOp); ok && bo.Op == token.LSS {
+				if cl, ok := bo.Y.(*ssa.Call); ok {
+					if bi, ok := cl.Call.Value.(*ssa.Builtin); ok && bi.Name() == "len" {
+						return cl.Call.Args[0]
+					}
+				}
+			}
+		}
+	}
+	return nil
+}
+
+var paramRef = regexp.MustCompile(`\$(\d+)`)
+
+func ruleWgCount(rule string) ruleFn {
+	return func(c *Ctx) {
+		c.Doc(rule, "module-wide: goroutines started in a loop that signal a WaitGroup are counted one by one (Add(1) in the loop) or the group is armed with len(X) of the very collection X the loop ranges over - in the function itself or, when the group is a parameter, in every caller; a count taken from another collection panics with 'negative WaitGroup counter' (more goroutines) or waits for ever (fewer)")
+		n := 0
+		for _, fn := range prodFns(c.P) {
+			fn := fn
+			R := NewRenderer(fn)
+			eachInstr(fn, func(in ssa.Instruction) {
+				g, ok := in.(*ssa.Go)
+				if !ok || !inLoop(g.Block()) {
+					return
+				}
+				var tf *ssa.Function
+				mc, isLit := g.Call.Value.(*ssa.MakeClosure)
+				if isLit {
+					tf, _ = mc.Fn.(*ssa.Function)
+				} else {
+					tf = g.Call.StaticCallee()
+				}
+				if tf == nil || tf.Blocks == nil {
+					return
+				}
+				// the group the goroutine signals, as a value of fn
+				var W ssa.Value
+				eachInstr(tf, func(x ssa.Instruction) {
+					ci, ok := x.(ssa.CallInstruction)
+					if !ok || CalleeName(x) != "(*sync.WaitGroup).Done" || len(ci.Common().Args) == 0 {
+						return
+					}
+					recv := strip(ci.Common().Args[0])
+					if ld, ok := recv.(*ssa.UnOp); ok && ld.Op == token.MUL {
+						// a captured pointer variable: the binding is the cell that holds the pointer
+						if fv, ok := ld.X.(*ssa.FreeVar); ok && isLit {
+							for i, f := range tf.FreeVars {
+								if f == fv && i < len(mc.Bindings) {
+									if al, ok := mc.Bindings[i].(*ssa.Alloc); ok && al.Referrers() != nil {
+										var stored []ssa.Value
+										for _, u := range *al.Referrers() {
+											if st, ok := u.(*ssa.Store); ok && st.Addr == al {
+												stored = append(stored, st.Val)
+											}
+										}
+										if len(stored) == 1 {
+											W = stored[0]
+										}
+									}
+								}
+							}
+						}
+						return
+					}
+					switch rv := recv.(type) {
+					case *ssa.FreeVar:
+						for i, fv := range tf.FreeVars {
+							if fv == rv && isLit && i < len(mc.Bindings) {
+								W = mc.Bindings[i]
+							}
+						}
+					case *ssa.Parameter:
+						for i, p := range tf.Params {
+							if p == rv && i < len(g.Call.Args) {
+								W = g.Call.Args[i]
+							}
+						}
+					}
+				})
+				if W == nil {
+					return
+				}
+				n++
+				key := FnName(fn) + " | goroutines of the loop are all counted"
+				coll := loopCollection(g.Block())
+				collTerm := ""
+				if coll != nil {
+					collTerm = R.V(coll)
+				}
+				wTerm := R.V(W)
+				verdict := func(RA *Renderer, add ssa.Instruction, want string, inSameLoop bool) (bool, string) {
+					a := add.(ssa.CallInstruction).Common().Args[1]
+					if k, ok := intConst(a); ok && k == 1 && inSameLoop {
+						return true, "Add(1) per goroutine"
+					}
+					got := RA.V(a)
+					if want != "" && got == "len("+want+")" {
+						return true, "armed with " + got
+					}
+					return false, "armed with " + got + ", the loop starts one goroutine per element of " + want
+				}
+				found := false
+				var mine []ssa.Instruction
+				for _, add := range AnyCallsTo(fn, "(*sync.WaitGroup).Add") {
+					if R.V(add.(ssa.CallInstruction).Common().Args[0]) == wTerm {
+						mine = append(mine, add)
+					}
+				}
+				// counted one by one in this very loop?
+				for _, add := range mine {
+					if inLoop(add.Block()) && loopCollection(add.Block()) == coll {
+						found = true
+						if ok, why := verdict(R, add, collTerm, true); ok {
+							c.OK(rule, key, c.P.InstrPos(in), why, true)
+						} else {
+							c.Bad(rule, key, c.P.InstrPos(add), why, nil)
+						}
+					}
+				}
+				if !found {
+					// armed before the loop (an Add inside another loop counts that loop's goroutines)
+					for _, add := range mine {
+						if inLoop(add.Block()) {
+							continue
+						}
+						found = true
+						if ok, why := verdict(R, add, collTerm, false); ok {
+							c.OK(rule, key, c.P.InstrPos(in), why, true)
+						} else {
+							c.Bad(rule, key, c.P.InstrPos(add), why, nil)
+						}
+					}
+				}
+				if found {
+					return
+				}
+				// the group comes in as a parameter: the callers arm it
+				pi := -1
+				for i, p := range fn.Params {
+					if p == strip(W) {
+						pi = i
+					}
+				}
+				node := c.P.CG.Nodes[fn]
+				if pi < 0 || node == nil || len(node.In) == 0 {
+					c.Undecided(rule, key, c.P.InstrPos(in), "no Add for "+wTerm+" found")
+					return
+				}
+				for _, e := range node.In {
+					cf := e.Caller.Func
+					site, ok := e.Site.(*ssa.Call)
+					if cf == nil || !ok || pi >= len(site.Call.Args) {
+						continue
+					}
+					RC := NewRenderer(cf)
+					wArg := RC.V(site.Call.Args[pi])
+					want := paramRef.ReplaceAllStringFunc(collTerm, func(m string) string {
+						var k int
+						fmt.Sscanf(m, "$%d", &k)
+						if k < len(site.Call.Args) {
+							return RC.V(site.Call.Args[k])
+						}
+						return m
+					})
+					armed := false
+					for _, add := range AnyCallsTo(cf, "(*sync.WaitGroup).Add") {
+						if RC.V(add.(ssa.CallInstruction).Common().Args[0]) != wArg {
+							continue
+						}
+						armed = true
+						k2 := key + " | armed in " + FnName(cf)
+						if ok, why := verdict(RC, add, want, false); ok {
+							c.OK(rule, k2, c.P.InstrPos(add), why, true)
+						} else {
+							c.Bad(rule, k2, c.P.InstrPos(add), why, nil)
+						}
+					}
+					if !armed {
+						c.Undecided(rule, key+" | armed in "+FnName(cf), c.P.InstrPos(site), "the caller passes "+wArg+" without arming it")
+					}
+				}
+			})
+		}
+		if n < 8 {
+			c.Undecided(rule, "vacuity-floor", "", fmt.Sprintf("only %d counted goroutine loops found", n))
+		}
+	}
+}
+
+// ---------------------------------------------------------------------------
+// *-HTTPCLIENT: a time-out is switched off only on a client nobody else uses
+// ---------------------------------------------------------------------------
+
+// httpTimeoutSetters: methods that may change the time-out of the client their object keeps,
+// because the object lives for one management call (rest handlers build a ReplicaClient per
+// request); the premise - every ReplicaClient gets an http.Client of its own - is an obligation.
+var httpTimeoutSetters = map[string]string{
+	"(*replica/client.ReplicaClient).SetTimeout": "explicit setter on a per-call client",
+	"(*replica/client.ReplicaClient).Revert":     "a revert reloads and preloads the whole chain: no deadline, on a per-call client",
+}
+
+func ruleHTTPClientPrivate(rule string) ruleFn {
+	return func(c *Ctx) {
+		c.Doc(rule, "module-wide: (http.Client).Timeout is assigned only on a client that is private to the assignment - a fresh allocation or copy made in the same function - or by the two setters of replica/client.ReplicaClient, whose client is allocated per ReplicaClient (every store to ReplicaClient.httpClient is a fresh &http.Client{} of the storing function): a backend that clears the time-out of the client it keeps (doAction for the slow 'open') issues every later request - made under the controller lock - without any deadline")
+		n := 0
+		isHTTPClientPtr := func(t types.Type) bool {
+			p, ok := t.Underlying().(*types.Pointer)
+			if !ok {
+				return false
+			}
+			nm, ok := p.Elem().(*types.Named)
+			return ok && nm.Obj().Pkg() != nil && nm.Obj().Pkg().Path() == "net/http" && nm.Obj().Name() == "Client"
+		}
+		for _, fn := range prodFns(c.P) {
+			fn := fn
+			R := NewRenderer(fn)
+			eachInstr(fn, func(in ssa.Instruction) {
+				st, ok := in.(*ssa.Store)
+				if !ok {
+					return
+				}
+				fa, ok := st.Addr.(*ssa.FieldAddr)
+				if !ok {
+					return
+				}
+				// (1) stores to Timeout of an http.Client
+				if isHTTPClientPtr(fa.X.Type()) {
+					sty := fa.X.Type().Underlying().(*types.Pointer).Elem().Underlying().(*types.Struct)
+					if sty.Field(fa.Field).Name() != "Timeout" {
+						return
+					}
+					n++
+					key := FnName(fn) + " | time-out assigned on a private client | " + R.V(fa.X)
+					switch {
+					case isFreshBase(fa.X):
+						c.OK(rule, key, c.P.InstrPos(in), "client allocated (or copied) in this function", false)
+					case httpTimeoutSetters[FnName(fn)] != "" && strings.HasSuffix(R.V(fa.X), ".httpClient"):
+						c.OK(rule, key, c.P.InstrPos(in), httpTimeoutSetters[FnName(fn)], false)
+					default:
+						c.Bad(rule, key, c.P.InstrPos(in), "the time-out of a client that outlives this call is changed: every later request through it runs with the new value (0 = none)", nil)
+					}
+					return
+				}
+				// (2) the premise of the setters: a ReplicaClient's client is its own
+				if t, f, _ := fieldAddrOf(fa); t == "ReplicaClient" && f == "httpClient" {
+					n++
+					key := FnName(fn) + " | ReplicaClient gets an http.Client of its own"
+					if isFreshBase(st.Val) {
+						c.OK(rule, key, c.P.InstrPos(in), "fresh allocation", false)
+					} else {
+						c.Bad(rule, key, c.P.InstrPos(in), "ReplicaClient.httpClient is set to "+R.V(st.Val)+", a client other ReplicaClients share: SetTimeout / Revert change it for all of them", nil)
+					}
+				}
+			})
+		}
+		if n < 4 {
+			c.Undecided(rule, "vacuity-floor", "", fmt.Sprintf("only %d sites found", n))
+		}
+	}
+}
+
+// ---------------------------------------------------------------------------
+// C16-FRONTSIZE: a frontend that remembers the volume size keeps it current
+// ---------------------------------------------------------------------------
+
+func ruleFrontendSize(rule string) ruleFn {
+	return func(c *Ctx) {
+		c.Doc(rule, "every frontend (a type with Startup(..., size, sectorSize, ...) and Resize(size)): a field that Startup fills from its size parameter is either re-assigned by Resize from Resize's parameter, or it is never read outside Startup - a bound or a published size taken from it is stale after a successful grow (the added range is refused by the frontend although the controller and the replicas have it)")
+		n := 0
+		for _, st := range prodFns(c.P) {
+			if st.Name() != "Startup" || st.Signature.Recv() == nil || st.Blocks == nil {
+				continue
+			}
+			recvT := st.Signature.Recv().Type()
+			var rz *ssa.Function
+			for _, f := range prodFns(c.P) {
+				if f.Name() == "Resize" && f.Signature.Recv() != nil && types.Identical(f.Signature.Recv().Type(), recvT) {
+					rz = f
+				}
+			}
+			if rz == nil {
+				continue
+			}
+			// the size parameter of Startup: the first int64 / uint64 parameter named size, else the first integer parameter
+			var sizeP *ssa.Parameter
+			for _, p := range st.Params[1:] {
+				if p.Name() == "size" {
+					sizeP = p
+				}
+			}
+			if sizeP == nil {
+				continue
+			}
+			n++
+			// fields of the receiver that Startup fills from it
+			type fld struct{ typ, name string }
+			var sized []fld
+			eachInstr(st, func(in ssa.Instruction) {
+				s, ok := in.(*ssa.Store)
+				if !ok {
+					return
+				}
+				if stripConv(strip(s.Val)) != ssa.Value(sizeP) {
+					return
+				}
+				if t, f, _ := fieldAddrOf(s.Addr); t != "" {
+					sized = append(sized, fld{t, f})
+				}
+			})
+			for _, sf := range sized {
+				key := FnName(rz) + " | keeps " + sf.typ + "." + sf.name + " current"
+				kept := false
+				for _, s := range StoresTo(rz, sf.typ, sf.name) {
+					v := stripConv(strip(s.(*ssa.Store).Val))
+					if len(rz.Params) > 1 && v == ssa.Value(rz.Params[1]) {
+						kept = true
+					}
+				}
+				if kept {
+					c.OK(rule, key, c.P.Pos(rz.Pos()), "Resize stores its parameter into the field", false)
+					continue
+				}
+				// not maintained: then nobody may read it
+				var reads []string
+				for _, f := range prodFns(c.P) {
+					if f == st {
+						continue
+					}
+					eachInstr(f, func(in ssa.Instruction) {
+						u, ok := in.(*ssa.UnOp)
+						if !ok || u.Op != token.MUL {
+							return
+						}
+						if t, fn2, _ := fieldAddrOf(u.X); t == sf.typ && fn2 == sf.name {
+							reads = append(reads, FnName(f)+" @"+c.P.InstrPos(in))
+						}
+					})
+				}
+				if len(reads) == 0 {
+					c.OK(rule, key, c.P.Pos(rz.Pos()), "the field is written by Startup only and never read", false)
+				} else {
+					c.Bad(rule, key, c.P.Pos(rz.Pos()), "Resize does not update the field, yet it is read by "+strings.Join(reads, ", ")+": stale after a grow", nil)
+				}
+			}
+		}
+		if n < 1 {
+			c.Undecided(rule, "vacuity-floor", "", "no frontend with Startup / Resize found")
 		}
 	}
 }
